@@ -39,7 +39,7 @@ func leavesSubtree(x *xast.Expr) bool {
 func TestC18(t *testing.T) {
 	runWitnesses(t, "C18")
 	// (i) Exec(n, R) = reference with context node n, position 1, size 1
-	runProp(t, "relative", 15000, 1000000, func(t *rapid.T) {
+	runProp(t, "relative", 75000, 1000000, func(t *rapid.T) {
 		c, p := genDocCase(t, caseOpts{cfg: docCfg(), anyCtx: true, vars: true},
 			func(g *xast.G, p *prepared) *xast.Expr {
 				g.Env.NoAbs = true
@@ -79,7 +79,7 @@ func TestC18(t *testing.T) {
 		}
 	})
 	// (ii) composition and (iii) P/f() = f(P), on the implementation alone
-	runProp(t, "compose", 5000, 300000, func(t *rapid.T) {
+	runProp(t, "compose", 18000, 300000, func(t *rapid.T) {
 		ev := xmodel.Gen(t, c02DocCfg())
 		p, err := prepareDoc(ev)
 		if err != nil {
